@@ -19,6 +19,14 @@ class NotScalar(Exception):
     pass
 
 
+COMPLEX_LIFT = [None]  # set by contracts/rules_complex.py: lifts Ex / complex literals to pairs
+
+
+def _foreign(o):
+    """operand that Ex arithmetic must hand over to (complex pair class / complex literal)"""
+    return type(o).__name__ == "Cx" or (isinstance(o, complex) and COMPLEX_LIFT[0] is not None)
+
+
 def _ex(v):
     if isinstance(v, Ex):
         return v
@@ -46,14 +54,20 @@ class Ex:
         self.op, self.a = op, a
 
     # arithmetic ------------------------------------------------------------
-    def __add__(self, o): return Ex("+", self, _ex(o))
-    def __radd__(self, o): return Ex("+", _ex(o), self)
-    def __sub__(self, o): return Ex("+", self, Ex("neg", _ex(o)))
-    def __rsub__(self, o): return Ex("+", _ex(o), Ex("neg", self))
-    def __mul__(self, o): return Ex("*", self, _ex(o))
-    def __rmul__(self, o): return Ex("*", _ex(o), self)
-    def __truediv__(self, o): return Ex("/", self, _ex(o))
-    def __rtruediv__(self, o): return Ex("/", _ex(o), self)
+    def _defer(self, o, name):
+        L = COMPLEX_LIFT[0]
+        if L is None:
+            return NotImplemented
+        return getattr(L(self), name)(L(o))
+
+    def __add__(self, o): return self._defer(o, "__add__") if _foreign(o) else Ex("+", self, _ex(o))
+    def __radd__(self, o): return self._defer(o, "__radd__") if _foreign(o) else Ex("+", _ex(o), self)
+    def __sub__(self, o): return self._defer(o, "__sub__") if _foreign(o) else Ex("+", self, Ex("neg", _ex(o)))
+    def __rsub__(self, o): return self._defer(o, "__rsub__") if _foreign(o) else Ex("+", _ex(o), Ex("neg", self))
+    def __mul__(self, o): return self._defer(o, "__mul__") if _foreign(o) else Ex("*", self, _ex(o))
+    def __rmul__(self, o): return self._defer(o, "__rmul__") if _foreign(o) else Ex("*", _ex(o), self)
+    def __truediv__(self, o): return self._defer(o, "__truediv__") if _foreign(o) else Ex("/", self, _ex(o))
+    def __rtruediv__(self, o): return self._defer(o, "__rtruediv__") if _foreign(o) else Ex("/", _ex(o), self)
     def __neg__(self): return Ex("neg", self)
     def __pos__(self): return self
     def __pow__(self, o): return Ex("pow", self, _ex(o))
@@ -194,7 +208,7 @@ def D(e, v):
         return D(exp(p * log(b)), v)
     if op == "where":
         return where(e.a[0], D(e.a[1], v), D(e.a[2], v))
-    if op in ("eq", "ne", "lt", "le"):
+    if op in ("eq", "ne", "lt", "le", "and"):
         return const(0)
     if op == "fn":
         name, u = e.a[0], e.a[1]
@@ -230,6 +244,7 @@ class Z:
         self.axioms = [self.PI > 3, self.PI < 4]
         self.exp_args = []
         self.log_args = []
+        self.defined = []  # side conditions under which every intermediate is a finite real (no x/0, no 0**negative)
         self.seen = {}
         self.vars = {}
 
@@ -266,7 +281,9 @@ class Z:
         if op == "*":
             return self.t(e.a[0]) * self.t(e.a[1])
         if op == "/":
-            return self.t(e.a[0]) / self.t(e.a[1])
+            den = self.t(e.a[1])
+            self.defined.append(den != 0)
+            return self.t(e.a[0]) / den
         if op in ("eq", "ne", "lt", "le", "and"):
             return z3.If(self.b(e), z3.RealVal(1), z3.RealVal(0))
         if op == "where":
@@ -285,6 +302,8 @@ class Z:
                     r = bt
                     for _ in range(abs(n) - 1):
                         r = r * bt
+                    if n < 0:
+                        self.defined.append(bt != 0)
                     return r if n > 0 else 1 / r
                 if q.denominator == 2:
                     s = self.t(sqrt(b))
@@ -301,6 +320,7 @@ class Z:
             P0 = self.F.setdefault("pow0", z3.Function("POW0", z3.RealSort(), z3.RealSort()))
             self.axioms.append(z3.Implies(pt == 0, P0(pt) == 1))
             self.axioms.append(z3.Implies(pt > 0, P0(pt) == 0))
+            self.defined.append(z3.Not(z3.And(bt == 0, pt < 0)))
             return z3.If(bt == 0, P0(pt), self.t(exp(p * log(b))))
         if op == "fn":
             name = e.a[0]
@@ -379,14 +399,15 @@ class Z:
                     self.axioms.append(LOG(u) == a)
 
 
-def identity_obligation(lhs, rhs, domain_ex, timeout_ms=20000):
-    """valid( domain => lhs = rhs )?   returns (verdict, model, backend, secs, z, vacuous)."""
+def identity_obligation(lhs, rhs, domain_ex, timeout_ms=20000, check_defined=False):
+    """valid( domain => lhs = rhs [and every intermediate finite] )?   returns (verdict, model, backend, secs, z)."""
     z = Z()
     l, r = z.t(lhs), z.t(rhs)
     dom = [z.b(c) for c in domain_ex]
     z.close(dom)
     hyps = dom + z.axioms
-    st, m, backend, secs = check_sat(hyps + [l != r], timeout_ms)
+    goal = z3.And([l == r] + (z.defined if check_defined else []))
+    st, m, backend, secs = check_sat(hyps + [z3.Not(goal)], timeout_ms)
     verdict = {"unsat": "proved", "sat": "refuted", "unknown": "unknown"}[st]
     return verdict, m, backend, secs, z
 
@@ -396,6 +417,7 @@ def prove_condition(domain_ex, build, timeout_ms=20000):
     z = Z()
     dom = [z.b(c) for c in domain_ex]
     goal = build(z)
+    goal = z3.And([goal] + z.defined)  # finite: no division by zero / 0**negative in any intermediate
     z.close(dom)
     st, m, backend, secs = check_sat(dom + z.axioms + [z3.Not(goal)], timeout_ms)
     return {"unsat": "proved", "sat": "refuted", "unknown": "unknown"}[st], m, backend, secs
